@@ -104,6 +104,8 @@ def run(chk: lib.Check):
         n = rng.randint(3, 6)
         hpaths.append(("/" if rng.random() < 0.3 else "") + "/".join(rng.choice(ALPHA) for _ in range(n)))
     tcases = []
+    url_cases = []
+    b_ = lambda x: x.encode("utf-8", "surrogateescape")
     counts = {k: 0 for k in KINDS}
     with lib.scratch("c14-") as tmp:
         rootdir = tmp / "root"
@@ -308,6 +310,9 @@ def run(chk: lib.Check):
                         if sp.query or not sp.path.endswith("/raw") or ".." in sp.path.split("/"):
                             bad = f"path {sp.path!r} query {sp.query!r}"
                     chk.note_case(("url", tpl, sub, f), nontrivial=True)
+                    if full.name:
+                        url_cases.append(((b_(tpl), b_(str(full).lstrip("/")), b_(str(full.parent).lstrip("/")), b_(full.with_suffix("").name),
+                                           b_(full.suffix.lstrip("."))), b_(url)))
                     if bad:
                         chk.violation(f"http-url-structure:{'%q' if '%q' in tpl else '%d%n%e' if '%d' in tpl else '%s'}",
                                       f"HTTPFileHandler({tpl!r}, subdir={sub!r}).open({f!r}) requests {url!r}: {bad}",
@@ -330,6 +335,7 @@ def run(chk: lib.Check):
                             "(x %d bases) and <= %d for each handler x %d subdirs; plus seeded random longer strings; "
                             "non-trivial = contains '..' or is absolute" % (ALPHA, maxlen, len(bases), 2 if quick else 4, len(SUBDIRS)))
     chk.coverage["exhaustive"] = True
+    chk.correspond("From V Require Import Model.HttpUrl.", "w_http_url", url_cases, tag="C14_url")
     chk.correspond("From V Require Import Model.Paths.", "w_target", tcases, tag="C14_target",
                    describe=lambda i: {"handler/subdir/file": tcases[i][0]})
     chk.assumptions += [
